@@ -26,7 +26,7 @@ _state = {}
 
 
 def _variants(ctx):
-    v = ['public', 'private_fresh']
+    v = ['public', 'private_fresh', 'private_density_first']
     if ctx.thorough():
         v += ['private_late', 'private_reload', 'private_after_mutation']
     return v
@@ -46,6 +46,12 @@ def setup(ctx):
     density.init(T)
     tables['private_fresh'] = T
     reach.stop()
+    # the two loaders in the other order (density.init does not need the isotopes), with reads in between
+    Td = core.PeriodicTable('c06_density_first_%d' % ctx.shard)
+    density.init(Td)
+    Td.Fe.density, Td.H.density, Td.D.ion[1]
+    mass.init(Td)
+    tables['private_density_first'] = Td
     m = _state['model']
     expected = 2 * m.rows + m.weight_rows + m.abundance_lines
     ctx.info['parse_uncertainty_calls_in_private_mass_init'] = reach.counts['parse_uncertainty']
